@@ -141,6 +141,21 @@ def reduce(
     return Diff(reduce_iter(d, path))
 
 
+def _same(a: Any, b: Any) -> bool:
+    """
+    Equality of values as JSON values: as ``==``, but a boolean never equals a number
+    (in Python, ``True == 1`` and ``False == 0``, so ``1`` changed to ``true`` would go unnoticed).
+    """
+    if isinstance(a, bool) != isinstance(b, bool):
+        return False
+    elif isinstance(a, collections.abc.Mapping) and isinstance(b, collections.abc.Mapping):
+        return a.keys() == b.keys() and all(_same(a[key], b[key]) for key in a)
+    elif isinstance(a, (list, tuple)) and isinstance(b, (list, tuple)):
+        return len(a) == len(b) and all(_same(x, y) for x, y in zip(a, b))
+    else:
+        return bool(a == b)
+
+
 def diff_iter(
         a: Any,
         b: Any,
@@ -167,7 +182,7 @@ def diff_iter(
     * https://python-json-patch.readthedocs.io/en/latest/tutorial.html
     """
     match a, b:
-        case a, b if a == b:  # incl. cases when both are None
+        case a, b if _same(a, b):  # incl. cases when both are None
             pass
         case None, _:
             yield DiffItem(DiffOperation.ADD, path, a, b)
